@@ -129,6 +129,7 @@ fn run_local(case: &Case, out: &mut Out) {
           let c = sub.as_ref().map_or(true, |u| u.is_closed());
           out.emit(k, format!("closed={}", c as u8));
         }
+        "pulls" => out.emit(k, format!("pulls={}", ctx.counters.borrow().pulls)),
         "tap" => {
           let c = ctx.counters.borrow().tap.clone();
           out.emit(k, format!("tap={:?}", c).replace(' ', ""));
@@ -186,6 +187,7 @@ fn run_threads(case: &Case, out: &mut Out) {
           let c = sub.as_ref().map_or(true, |u| u.is_closed());
           out.emit(k, format!("closed={}", c as u8));
         }
+        "pulls" => out.emit(k, format!("pulls={}", ctx.counters.lock().unwrap().pulls)),
         "tap" => {
           let c = ctx.counters.lock().unwrap().tap.clone();
           out.emit(k, format!("tap={:?}", c).replace(' ', ""));
